@@ -38,6 +38,9 @@
 (*                     although the other direction is still delivering    *)
 (*   ResetOnError    - after a failure the connections are reset: bytes    *)
 (*                     already queued for the healthy direction are gone   *)
+(*   ReadTimeoutArmsWrite - on a listener with a read timeout (rt=) the    *)
+(*                     deadline of the last read also ends later WRITES    *)
+(*                     of the reply to the client                          *)
 (* The design: a failed direction only ends itself; what the other side    *)
 (* sent before it finished cleanly still reaches its peer.                 *)
 (*                                                                         *)
@@ -55,6 +58,7 @@ CONSTANTS
     DropDataWithEOF,   \* deviation (defect class): data returned together with EOF is dropped
     AbortOnError,      \* deviation (defect class): first failed direction ends the tunnel
     ResetOnError,      \* deviation (defect class): connections are reset when the tunnel ended with an error
+    ReadTimeoutArmsWrite, \* deviation (defect class): the listener's read timeout also expires writes to the client
     PeekN              \* bytes the SNI path peeks before it knows the hello length
 
 EOFm  == 0             \* FIN marker inside the byte FIFOs (data bytes are >= 1)
@@ -254,6 +258,18 @@ Ws101 == /\ ppc = "ws101" /\ u2p # <<>> /\ u2p[1] # EOFm
          /\ UNCHANGED <<sc, cli, ups, c2p, p2u, bio, hbuf, cpCU, cpUC, inW, outW, firstFin>>
 
 -----------------------------------------------------------------------------
+\* Listener configuration (proxy.addr option rt=): a read timeout on the client connection.  All the
+\* documentation says is that it limits reads from the client: when the client has been silent for
+\* that long the client -> upstream direction ends (and, like every ended direction, is passed on
+\* as a half-close).  It has no say about the other direction.  Modelled for a client that has
+\* sent everything it has (a client cut off in mid-stream is the timeout doing its job).
+CUTimeout == /\ ppc = "copy" /\ sc.rt = 1 /\ cpCU.pc = "read"
+             /\ c2p = <<>> /\ bio = <<>> /\ cIdx = Len(CSegs)
+             /\ cpCU' = Cp("failed", <<>>, FALSE)
+             /\ p2u' = IF ~outW /\ uState # "closed" THEN Append(p2u, EOFm) ELSE p2u
+             /\ outW' = TRUE
+             /\ UNCHANGED <<sc, cli, ups, c2p, u2p, p2c, ppc, bio, hbuf, cpUC, inW, firstFin>>
+
 \* a Read may return the last data together with the EOF that follows it (a TLS record and the
 \* close_notify behind it; any io.Reader may): e = TRUE
 WithEOF(q, k) == IF k = LeadLen(q) /\ k < Len(q) /\ q[k + 1] = EOFm THEN {FALSE, TRUE} ELSE {FALSE}
@@ -298,9 +314,10 @@ UCRead == /\ ppc = "copy" /\ cpUC.pc = "read" /\ u2p # <<>>
 
 \* writing to a connection that has been reset fails: this direction is over (the design: only this one)
 UCWrite == /\ ppc = "copy" /\ cpUC.pc = "write"
-           /\ p2c' = IF CAlive /\ ~(DropDataWithEOF /\ cpUC.eof) THEN p2c \o cpUC.buf ELSE p2c
-           /\ cpUC' = IF cState = "reset" THEN Cp("failed", <<>>, FALSE)
-                      ELSE IF cpUC.eof THEN Cp("eof", <<>>, FALSE) ELSE Idle
+           /\ \E expired \in (IF ReadTimeoutArmsWrite /\ sc.rt = 1 THEN {FALSE, TRUE} ELSE {FALSE}) :
+                 /\ p2c' = IF CAlive /\ ~expired /\ ~(DropDataWithEOF /\ cpUC.eof) THEN p2c \o cpUC.buf ELSE p2c
+                 /\ cpUC' = IF cState = "reset" \/ expired THEN Cp("failed", <<>>, FALSE)
+                            ELSE IF cpUC.eof THEN Cp("eof", <<>>, FALSE) ELSE Idle
            /\ UNCHANGED <<sc, cli, ups, c2p, p2u, u2p, ppc, bio, hbuf, cpCU, inW, outW, firstFin>>
 
 UCEof == /\ ppc = "copy" /\ cpUC.pc = "eof"
@@ -336,7 +353,7 @@ Terminated == ppc = "done" /\ ~CAlive /\ uState = "closed"
 Next == \/ CWrite \/ CFin \/ CRead \/ CCloseAfterEOF \/ CAbort
         \/ UWrite \/ UFin \/ URead \/ UCloseAfterEOF
         \/ Peek \/ ReadHello \/ Dial \/ ProxyHdr \/ ReplayHello \/ Ws101
-        \/ CURead \/ CUWrite \/ CUEof \/ UCRead \/ UCWrite \/ UCEof \/ Finish
+        \/ CURead \/ CUWrite \/ CUEof \/ CUTimeout \/ UCRead \/ UCWrite \/ UCEof \/ Finish
         \/ (Terminated /\ UNCHANGED vars)          \* so that TLC's deadlock check means "stuck before the end"
 
 Spec == Init /\ [][Next]_vars
@@ -346,12 +363,14 @@ Spec == Init /\ [][Next]_vars
 \* order, exactly-once, unmodified, at all times
 PrefixInv == IsPrefix(uRecv, ExpU) /\ IsPrefix(cRecv, ExpC)
 \* "whichever side finishes first has had all of its data delivered"
-FirstFinisherDelivered == Terminated => /\ (firstFin = "c" => uRecv = ExpU)
+\* (a read timeout that ended the client -> upstream direction is the configuration at work, not a loss)
+TimedOut == sc.rt = 1 /\ cpCU.pc = "failed"
+FirstFinisherDelivered == Terminated => /\ (firstFin = "c" /\ ~TimedOut => uRecv = ExpU)
                                         /\ (firstFin = "u" => cRecv = ExpC)
 \* "a client that half-closes after sending still receives the reply"
 HalfCloseGetsReply == (sc.cmode = "half" /\ cGotEOF) => cRecv = ExpC
 \* "every byte one side sends is delivered to the other side": on the scenarios a direct
 \* connection carries completely, so does the tunnel
-Transparent == Terminated => /\ uRecv = ExpU
+Transparent == Terminated => /\ (~TimedOut => uRecv = ExpU)
                              /\ (sc.cmode \notin {"close", "abort"} => cRecv = ExpC)
 =============================================================================
